@@ -10,7 +10,7 @@ Inductive fname :=
 | FUpcase | FDowncase | FAppend | FPrepend | FSize | FDefault
 | FPlus | FMinus | FTimes | FJoin | FFirst | FLast.
 
-(** lambda-aware filters called with a one-parameter arrow function *)
+(** lambda-aware filters called with an arrow function [x => e] or [(x, i) => e] *)
 Inductive lfname := LMap | LWhere | LReject | LFind | LFindIndex | LHas.
 
 Inductive expr :=
@@ -24,7 +24,8 @@ Inductive expr :=
 | ECmp (op : cmpop) (a b : expr)
 | EFilter (e : expr) (f : fname) (args : list expr)
 | ETernary (cond a : expr) (alt : option expr)   (* a if cond else alt *)
-| EFilterL (e : expr) (f : lfname) (param : str) (body : expr)   (* e | f: param => body *)
+| EFilterL (e : expr) (f : lfname) (param : str) (iparam : option str) (body : expr)
+                                       (* e | f: param => body,  e | f: (param, iparam) => body *)
 with seg :=
 | SKey (k : str)
 | SIdx (i : Z)
